@@ -392,6 +392,13 @@ func (ck *checker) runWorker(spec workerSpec, kvOut map[string]string) {
 		if done {
 			return
 		}
+		if reason == "fresh" {
+			// a fresh-process campaign: the next run of this shard gets a new worker
+			spec.from = last.idx + 1
+			spec.fromCamp = last.camp
+			attempt--
+			continue
+		}
 		ck.mu.Lock()
 		ab = ck.aborted
 		ck.mu.Unlock()
@@ -521,7 +528,7 @@ func (ck *checker) runWorkerOnce(spec workerSpec, kvOut map[string]string, skip 
 	}()
 	sc := bufio.NewScanner(pr)
 	sc.Buffer(make([]byte, 1<<20), 64<<20)
-	sawDone := false
+	sawDone, sawFresh := false, false
 	for sc.Scan() {
 		ln := sc.Text()
 		if len(ln) < 2 {
@@ -573,6 +580,8 @@ func (ck *checker) runWorkerOnce(spec workerSpec, kvOut map[string]string, skip 
 				}
 				ck.mu.Unlock()
 			}
+		case 'F':
+			sawFresh = true
 		case 'D':
 			sawDone = true
 		case 'X':
@@ -591,6 +600,9 @@ func (ck *checker) runWorkerOnce(spec workerSpec, kvOut map[string]string, skip 
 	defer lmu.Unlock()
 	if sawDone && werr == nil {
 		return true, last, ""
+	}
+	if sawFresh && werr == nil && !last.open {
+		return false, last, "fresh"
 	}
 	if killed {
 		reason = "watchdog"
